@@ -13,6 +13,7 @@ Template directives (all start with //@ at the beginning of a line):
                                     END line included unless `exclusive`)
      inside either block:
        //@sig <text>                replacement for the signature (up to the body's '{'); several lines allowed
+       //@subst? /REGEX/ => REPL    same, but it is not an error if nothing matches (operator/binding-mode spellings)
        //@subst /REGEX/ => REPL     unit-specific token rewrite (R3 generic instantiation, receiver renames); recorded
        //@contract                  following lines = requires/ensures clauses placed between signature and body
        //@loop N                    following lines = invariant/decreases clauses for the N-th loop (0-based, textual order)
@@ -241,7 +242,7 @@ def process_block(kind, header, dirs, report):
         raise AnchorError(f'cannot read {path}: {e}')
     m = mask(src)
     sig = '\n'.join(d[1] for d in dirs if d[0] == 'sig')
-    substs = [d[1] for d in dirs if d[0] == 'subst']
+    substs = [(d[1], d[0] == 'subst?') for d in dirs if d[0] in ('subst', 'subst?')]
     contract = '\n'.join(d[2] for d in dirs if d[0] == 'contract')
     loops = {int(d[1]): d[2] for d in dirs if d[0] == 'loop'}
     def parse_hint(a):
@@ -295,14 +296,14 @@ def process_block(kind, header, dirs, report):
             counts[k] = counts.get(k, 0) + v
     for k, v in counts.items():
         entry['rewrites'][k] = entry['rewrites'].get(k, 0) + v
-    for s in substs:
+    for s, optional in substs:
         mm = re.match(r'\s*/(.*)/\s*=>\s?(.*)$', s)
         if not mm:
             raise TemplateError('bad subst: ' + s)
         body, n = re.subn(mm.group(1), mm.group(2), body, flags=re.M)
         if kind == 'fn' and not sig:
             use_sig, n2 = re.subn(mm.group(1), mm.group(2), use_sig, flags=re.M); n += n2
-        if n == 0:
+        if n == 0 and not optional:
             raise AnchorError(f'subst /{mm.group(1)}/ matched nothing in {entry["anchor"]}')
         entry['rewrites'][f'R3/subst /{mm.group(1)}/ => {mm.group(2)}'] = n
     body = insert_hints(body, hints, entry)
@@ -379,10 +380,10 @@ def generate(template_path):
                 if l2.startswith('//@end'):
                     i += 1
                     break
-                d = re.match(r'//@([\w-]+)\s*(.*)$', l2)
+                d = re.match(r'//@([\w?-]+)\s*(.*)$', l2)
                 if d:
                     key, arg = d.group(1), d.group(2)
-                    if key in ('sig', 'subst', 'keep-panics', 'keep-minmax', 'no-twin'):
+                    if key in ('sig', 'subst', 'subst?', 'keep-panics', 'keep-minmax', 'no-twin'):
                         dirs.append([key, arg]); cur = None
                     elif key in ('contract', 'loop', 'after', 'before', 'prologue'):
                         cur = [key, arg, '']
